@@ -167,6 +167,12 @@ fn step_text(kind: StepKind, prefix: &str, owner: &str, n: usize) -> String {
     }
 }
 
+/// Keyword of the n-th (0-based) own step of a scenario: all three step types and the
+/// conjunctions (`And` / `But` / `*` continue the previous type).
+pub fn step_keyword(n: usize) -> &'static str {
+    ["Given", "When", "And", "Then", "But", "*"][n % 6]
+}
+
 fn tags_line(indent: &str, tags: &[String]) -> String {
     if tags.is_empty() {
         String::new()
@@ -187,7 +193,7 @@ impl FeatSpec {
         if !self.bg.is_empty() {
             out += "  Background:\n";
             for (n, k) in self.bg.iter().enumerate() {
-                out += &format!("    Given {}\n", step_text(*k, "bg", &fname, n + 1));
+                out += &format!("    {} {}\n", if n == 0 { "Given" } else { "And" }, step_text(*k, "bg", &fname, n + 1));
             }
         }
         for (j, s) in self.scenarios.iter().enumerate() {
@@ -195,7 +201,7 @@ impl FeatSpec {
             out += &tags_line("  ", &s.tags);
             out += &format!("  Scenario: {sname}\n");
             for (n, k) in s.steps.iter().enumerate() {
-                out += &format!("    Given {}\n", step_text(*k, "step", &sname, n + 1));
+                out += &format!("    {} {}\n", step_keyword(n), step_text(*k, "step", &sname, n + 1));
             }
         }
         for (k, r) in self.rules.iter().enumerate() {
@@ -205,7 +211,7 @@ impl FeatSpec {
             if !r.bg.is_empty() {
                 out += "    Background:\n";
                 for (n, kd) in r.bg.iter().enumerate() {
-                    out += &format!("      Given {}\n", step_text(*kd, "rbg", &rname, n + 1));
+                    out += &format!("      {} {}\n", if n == 0 { "Given" } else { "But" }, step_text(*kd, "rbg", &rname, n + 1));
                 }
             }
             for (j, s) in r.scenarios.iter().enumerate() {
@@ -213,7 +219,7 @@ impl FeatSpec {
                 out += &tags_line("    ", &s.tags);
                 out += &format!("    Scenario: {sname}\n");
                 for (n, kd) in s.steps.iter().enumerate() {
-                    out += &format!("      Given {}\n", step_text(*kd, "step", &sname, n + 1));
+                    out += &format!("      {} {}\n", step_keyword(n), step_text(*kd, "step", &sname, n + 1));
                 }
             }
         }
@@ -362,20 +368,25 @@ impl Config {
 // -------------------------------------------------------------- real objects
 
 pub fn collection() -> Collection<TW> {
+    let re = |p: &str| Regex::new(p).unwrap();
+    let loc = |line| Some(cucumber::step::Location { path: "harness.rs", line, column: 1 });
+    let (main, wide, amb) =
+        (r"^(step|bg|rbg) (\S+) (\d+)$", r"^ambig-\S+ .*$", r"^ambig-(step|bg|rbg) (\S+) (\d+)$");
+    // the same definitions under all three step types (steps use every keyword); the
+    // ambiguous pattern text at two locations: two definitions, not one
     Collection::new()
-        .given(None, Regex::new(r"^(step|bg|rbg) (\S+) (\d+)$").unwrap(), hs::step_fn)
-        .given(None, Regex::new(r"^ambig-\S+ .*$").unwrap(), hs::step_fn)
-        // the same pattern text at two locations: two definitions, not one
-        .given(
-            Some(cucumber::step::Location { path: "harness.rs", line: 1, column: 1 }),
-            Regex::new(r"^ambig-(step|bg|rbg) (\S+) (\d+)$").unwrap(),
-            hs::step_fn2,
-        )
-        .given(
-            Some(cucumber::step::Location { path: "harness.rs", line: 2, column: 1 }),
-            Regex::new(r"^ambig-(step|bg|rbg) (\S+) (\d+)$").unwrap(),
-            hs::step_fn2,
-        )
+        .given(None, re(main), hs::step_fn)
+        .given(None, re(wide), hs::step_fn)
+        .given(loc(1), re(amb), hs::step_fn2)
+        .given(loc(2), re(amb), hs::step_fn2)
+        .when(None, re(main), hs::step_fn)
+        .when(None, re(wide), hs::step_fn)
+        .when(loc(1), re(amb), hs::step_fn2)
+        .when(loc(2), re(amb), hs::step_fn2)
+        .then(None, re(main), hs::step_fn)
+        .then(None, re(wide), hs::step_fn)
+        .then(loc(1), re(amb), hs::step_fn2)
+        .then(loc(2), re(amb), hs::step_fn2)
 }
 
 pub fn parser_error(tag: &str) -> parser::Error {
